@@ -95,6 +95,7 @@ def check(case, mon, ctx):
         if not (brute == opt or abs(brute - opt) < 1e-9):
             raise RuntimeError('oracle self-check failed: DP %r vs brute force %r' % (opt, brute))
     status, res = run_force_align(fa, cost, labels, blank)
+    mon.observe('alignment', [status, [int(x) for x in res] if status == 'ok' else None])
     if opt == math.inf:
         mon.count('infeasible_checked')
         if status == 'ok':
